@@ -32,6 +32,13 @@ theorem load_shape :
     setBucketDumps = true ∧ loaderLoadShape = true ∧ clearUsesPattern = true ∧
     checksumIsSha1OfWholeSource = true ∧ keyIsSha1OfNameAndFilename = true := by decide
 
+/-- the magic every entry starts with and `load_bytecode` compares first is computed from the cache format version AND
+    from the running interpreter's major and minor version (`sys.version_info[0]`, `sys.version_info[1]`): an entry written
+    by another CPython version has another magic, which `foreign_magic_miss` turns into a miss -/
+theorem magic_depends_on_interpreter :
+    "sys.version_info[0]" ∈ magicDependsOn ∧ "sys.version_info[1]" ∈ magicDependsOn ∧ "bc_version" ∈ magicDependsOn := by
+  decide
+
 /-! ### load_total -/
 
 /-- an exception value carries its superclasses: its MRO contains the whole MRO of each class of `set` it contains
